@@ -305,6 +305,26 @@ func TestC12Interleaved(t *testing.T) {
 					bOps[i] = append(bOps[i], Step{Kind: SInsertKey, Key: fmt.Sprintf("b%d", bSeq), Stores: genStores(t, mc.M, cfg, 0, 2, "b-ins")})
 				}
 			}
+			// A's later QueryKey/DeleteKey steps may aim at a key B creates earlier IN THIS transaction
+			for i := range spec.Steps {
+				st := &spec.Steps[i]
+				if st.Kind != SQueryKey && st.Kind != SDeleteKey {
+					continue
+				}
+				var cands []string
+				for j, ops := range bOps {
+					if j < i {
+						for _, b := range ops {
+							cands = append(cands, b.Key)
+						}
+					}
+				}
+				sort.Strings(cands)
+				if len(cands) > 0 && rapid.IntRange(0, 1).Draw(t, "use-fresh-b-key") == 0 {
+					st.Key = cands[rapid.IntRange(0, len(cands)-1).Draw(t, "fresh-b-key")]
+					st.Fail = false
+				}
+			}
 			mc.logf("A: %s  with B's commits interleaved after steps %v", sch.renderTxn(spec), sortedKeys(bOps))
 			res := make([]StepResult, len(spec.Steps))
 			var verr error
